@@ -111,6 +111,13 @@ func c05Exec(x *engine.Ctx, cc any) {
 		return
 	}
 	reportOwned(x, "C05", diffs)
+	// "the certificate's signature algorithm identifier is the configured signatureAlgorithm": an identifier
+	// whose parameters are not those of the algorithm, or whose two copies disagree, is not that identifier
+	for _, df := range diffs {
+		if df.Owner == "C02" && (strings.HasPrefix(df.Class, "C02/algid-params/") || df.Class == "C02/algid-inner-outer-differ") {
+			x.Violation("C05/identifier/"+strings.TrimPrefix(df.Class, "C02/"), df.Detail)
+		}
+	}
 	// private key block
 	if a.Key == nil {
 		x.Violation("C05/key/undecodable configured="+orOmitted(c.KeyAlg), fmt.Sprintf("PRIVATE KEY block: %v", a.KeyErr))
